@@ -139,14 +139,16 @@ class World(cpool.World):
         # seams of the compiler-server tier
         world = self
 
-        class SrvOS:
+        class _SrvOS:
             environ = {}
-            path = __import__('os').path
 
             @staticmethod
             def getpid():
                 return 4242
-        S.os = SrvOS
+
+            def __getattr__(self, name):
+                return getattr(__import__('os'), name)
+        S.os = _SrvOS()
 
         class SrvSecrets:
             """``secrets`` of the compiler-server process: randomness comes from the tape."""
@@ -163,6 +165,14 @@ class World(cpool.World):
             @staticmethod
             def token_urlsafe(n=None):
                 return 'sim-secret'
+
+            @staticmethod
+            def token_bytes(n=32):
+                return SrvSecrets.randbits(8 * n).to_bytes(n, 'big')
+
+            @staticmethod
+            def token_hex(n=32):
+                return SrvSecrets.token_bytes(n).hex()
         S.secrets = SrvSecrets
         P.os.environ['_EDGEDB_SERVER_COMPILER_POOL_SECRET'] = 'sim-secret'
         loop.create_connection = self.create_connection
